@@ -17,8 +17,12 @@ package utils
 import (
 	"bytes"
 	"encoding/binary"
+	"errors"
 	"io"
+	"math"
 )
+
+var ErrLengthOverflow = errors.New("length does not fit in 16 bits")
 
 type ErrorWriter struct {
 	buf *bytes.Buffer
@@ -37,6 +41,18 @@ func (w *ErrorWriter) Write(order binary.ByteOrder, data any) {
 		return
 	}
 	w.err = binary.Write(w.buf, order, data)
+}
+
+// WriteLen16 writes a length as uint16, a length that does not fit is an error instead of being truncated
+func (w *ErrorWriter) WriteLen16(order binary.ByteOrder, n int) {
+	if w.err != nil {
+		return
+	}
+	if n < 0 || n > math.MaxUint16 {
+		w.err = ErrLengthOverflow
+		return
+	}
+	w.Write(order, uint16(n))
 }
 
 func (w *ErrorWriter) Error() error {
